@@ -97,6 +97,12 @@ impl SecondaryStorage {
                         .next_id
                         .1
                         .fetch_max(entry.dv_id + 1, std::sync::atomic::Ordering::SeqCst);
+                    // A DV can outlive its RowSet in the manifest (compaction does not remove it):
+                    // never issue that RowSet id again, or the stale DV would hide the new rows.
+                    engine
+                        .next_id
+                        .0
+                        .fetch_max(entry.rowset_id + 1, std::sync::atomic::Ordering::SeqCst);
 
                     dvs_to_open.insert(
                         (entry.table_id.table_id, entry.rowset_id, entry.dv_id),
